@@ -4,6 +4,7 @@ import (
 	"encoding/hex"
 	"errors"
 	"fmt"
+	"sort"
 	"strconv"
 	"strings"
 	"time"
@@ -323,6 +324,11 @@ func (conf *Config) setCost(key string, change int) error {
 	}
 	if conf.Cost == nil {
 		conf.Cost = make(map[string]int)
+	}
+	if _, known := Settings[key]; !known {
+		if _, exists := conf.Cost[strings.TrimPrefix(key, costPrefix)]; !exists {
+			return fmt.Errorf("unknown cost %v", key)
+		}
 	}
 	conf.Cost[strings.TrimPrefix(key, costPrefix)] = change
 	return nil
@@ -719,7 +725,14 @@ func (conf *Config) get(key Setting) interface{} {
 }
 
 func (conf *Config) update(changes config.StringMap) error {
-	for key, value := range changes.Fields {
+	// apply in a fixed order: keys that become equal after trimming and the first error must not depend on map iteration
+	keys := make([]string, 0, len(changes.Fields))
+	for key := range changes.Fields {
+		keys = append(keys, key)
+	}
+	sort.Strings(keys)
+	for _, key := range keys {
+		value := changes.Fields[key]
 		trimmedKey := strings.TrimSpace(key)
 		trimmedValue := strings.TrimSpace(value)
 		if err := conf.set(trimmedKey, trimmedValue); err != nil {
@@ -779,6 +792,9 @@ func (ssc *StorageSmartContract) updateSettings(
 	if err := cstate.WithActivation(balances, "demeter", func() error {
 		return nil
 	}, func() error {
+		if err := conf.validate(); err != nil {
+			return common.NewError("update_settings_validate", err.Error())
+		}
 		return ssc.saveConfig(balances, conf)
 	}); err != nil {
 		return "", err
